@@ -353,8 +353,7 @@ class chassis_id (simple_tlv):
     return struct.pack("!B", self.subtype) + self.id
 
   def __str__ (self):
-    if self.subtype == chassis_id.SUB_MAC:
-      assert len(self.id) == 6
+    if self.subtype == chassis_id.SUB_MAC and len(self.id) == 6:
       id_str = str(EthAddr(self.id))
     else:
       id_str = ":".join(["%02x" % (x,) for x in self.id])
@@ -396,8 +395,7 @@ class port_id (simple_tlv):
     self.id = data[1:]
 
   def __str__ (self):
-    if self.subtype == chassis_id.SUB_MAC:
-      assert len(self.id) == 6
+    if self.subtype == port_id.SUB_MAC and len(self.id) == 6:
       id_str = str(EthAddr(self.id))
     else:
       id_str = ":".join(["%02x" % (x,) for x in self.id])
